@@ -220,7 +220,7 @@ CONTRACTS.append(top_groups)
 # is the k-th node of molecule.sorted_nodes (contract of the ATOM / TER loop, C16).  Both are re-verified here.
 import copy as _copy
 from contracts import c02 as _c02, c16 as _c16
-for _c in (_c02.atoms_loop, _c16.serials):
+for _c in (_c02.atoms_loop, _c16.serials, _c02.sorted_nodes):
     _c = _copy.copy(_c)
     _c.prop = 'C03'
     CONTRACTS.append(_c)
